@@ -52,6 +52,9 @@ class C03(Check):
         'translator tools/gen/c03_productions.py (+ tools/gen/relib.py): the STRING/URI/IDENT/COMMENT productions and '
         'the unicodesub / cleanstring / _simpleescapes / _match_forbidden_in_uri patterns as Re terms, regenerated '
         'from the source on every run and compared with CPython\'s compiled patterns on the content stream',
+        'sheet level: hand model lean/CssVerif/Model/SheetCanon.lean of the serializer\'s layout (token level) on top of '
+        'C02\'s structure kernel (Model/Struct.lean, AtRules.lean, SheetSpec.lean, tied by C02), tied on every run by the '
+        'canon stream: driver tokens = the real tokenizer on the real cssText of generated spelled sheets',
     )
     assumptions = (
         'sre-faithfulness of Re.first for the supported regex subset (checked on every run against the compiled patterns)',
@@ -61,7 +64,10 @@ class C03(Check):
     rule = ('content stream: token texts built from plain characters of every class the code distinguishes (ASCII, '
             'controls, non-ASCII, astral, lone surrogate, all white space kinds), escaped backslashes, hex escapes of 33 '
             'code points x 1-6 digits x 7 terminators, simple escapes, escaped line breaks, both quotes; '
-            'non-trivial = distinct token text / value containing a backslash, a quote, a line break or a non-ASCII character')
+            'non-trivial = distinct token text / value containing a backslash, a quote, a line break or a non-ASCII character; '
+            'canon stream: abstract sheets of the C02 generator (all rule kinds, empty rules included) x structure-level '
+            'spellings (white space, comments in gaps, letter case, simple escapes, quote styles, stand-alone semicolons), '
+            'opaque parts in the form the implementation\'s own sub-serializers give them')
 
     # ------------------------------------------------------------------------------------------
     def translate(self, ctx):
